@@ -234,6 +234,15 @@ def exec_while(it, node):
         it.exec_block(node.orelse)
 
 
+def _load_target(t):
+    import copy
+    t2 = copy.deepcopy(t)
+    for nn in ast.walk(t2):
+        if hasattr(nn, 'ctx'):
+            nn.ctx = ast.Load()
+    return t2
+
+
 def exec_for(it, node):
     ctx = it.ctx
     fr = ctx.frame
@@ -287,8 +296,15 @@ def exec_for(it, node):
     for t in ast.walk(node.target):
         if isinstance(t, ast.Name):
             tnames.add(t.id)
-    for name in sorted(targets | tnames):
-        if name in fr.locals:
+    pre_loop_locals = dict(fr.locals)
+    shapes = lc.get('shapes', {})
+    for name in sorted(targets | tnames | set(shapes)):
+        if name in shapes:
+            fr.locals[name] = shapes[name].make(it, name)
+            if isinstance(fr.locals[name], VRef):
+                ctx.shaped_refs = set(getattr(ctx, 'shaped_refs', ())) | {
+                    fr.locals[name].ref}
+        elif name in fr.locals:
             fr.locals[name] = fresh_like(ctx, name, fr.locals[name])
     for p in lc.get('havoc', []):
         cell, field = resolve_path(it, p)
@@ -317,6 +333,11 @@ def exec_for(it, node):
             return
         except _Continue:
             pass
+        # the loop targets must still hold this iteration's element when
+        # the loop goes on (they are re-bound from the last element at exit)
+        cur_t = it.ev(_load_target(node.target))
+        if not same_expr(cur_t, x):
+            raise Unsupported('loop target re-assigned on a continuing path')
         envk1 = {kname: VInt(k + 1)}
         for name, clause in lc['invariant']:
             ctx.oblige('%s.preserve.%s' % (label, name),
@@ -330,4 +351,18 @@ def exec_for(it, node):
         # contract must state if the code relies on it.
         if lc.get('at_exit'):
             lc['at_exit'](it, k)
+        # after a non-empty loop the targets hold the last element
+        if ctx.branch(n > 0):
+            xl = seq_elem(c, L_at(seq, n - 1))
+            if start is not None:
+                xl = VTuple([VInt(as_int(start) + n - 1), xl])
+            it.assign(node.target, xl)
+        else:
+            # the body never ran: the state is the one before the loop
+            for name in list(fr.locals):
+                if name in targets | tnames:
+                    if name in pre_loop_locals:
+                        fr.locals[name] = pre_loop_locals[name]
+                    else:
+                        del fr.locals[name]
         it.exec_block(node.orelse)
